@@ -63,7 +63,7 @@ Inductive item :=
 | IAggregator (asn : Z) (ip : list Z)
 | ICommunity (vs : list Z)                 (* 32-bit values in the order written *)
 | IOriginator (ip : list Z)
-| ICluster (ids : list Z)                  (* the 4-byte ids concatenated *)
+| ICluster (ids : list Z)                  (* cluster ids as 32-bit values, in the order written *)
 | IExtended (vs : list Z)                  (* 64-bit values in the order written *)
 | ILarge (vs : list Z)                     (* 96-bit values in the order written *)
 | IGeneric (code flag : Z) (data : list Z) (* attribute [ code flag data ] *).
@@ -142,7 +142,7 @@ Definition pack_item (s : sess) (i : item) : list Z :=
   | IAggregator asn ip => pack_aggregator (s_asn4 s) asn ip
   | ICommunity vs => attr_tlv 192 8 (flat_map be32 (csort vs))
   | IOriginator ip => attr_tlv 128 9 ip
-  | ICluster ids => attr_tlv 128 10 ids
+  | ICluster ids => attr_tlv 128 10 (flat_map be32 ids)
   | IExtended vs => attr_tlv 192 16 (flat_map be64 (csort vs))
   | ILarge vs => attr_tlv 192 32 (flat_map be96 (csort_nodup vs))
   | IGeneric c f d => tlv_raw f c d
